@@ -40,6 +40,10 @@ def run(rep, tier, seed, replay):
         pres = ["{é}é", "[é]/é", "\\*\\*愛", "(?-i)愛é", "<é:1>é", "é{愛}", "(?i)1é", "<é/:2>愛", "[愛]愛", "{é/愛}", "(?i)中", "<<é:1>:1>é", "愛\\[é\\]", "/{é}", "/<愛:2>é"]
         posts = ["/*", "/**/*.rs", "/x/**", "*", "/{a,b}*", "/**", "/é*", "/<a:1,>"]
         exprs += [a + b for a in pres for b in posts]
+        # input that ENDS anywhere: every prefix of a sample of expressions and of expressions with bounds
+        rp = random.Random(seed + 5)
+        base_e = rp.sample([e for e in exprs if 2 <= len(e) <= 40], min(150, len(exprs))) + ["<a:1,2>b", "src/<*/:0,3>x", "{a,<b:2>}", "<<a:1,2>:3>", "(?i)<a/:1>", "a/**/{b,c}", "[a-z]*", "\\*a", "<a:12,345>"]
+        exprs += [e[:j] for e in base_e for j in range(1, len(e))]
         exprs = list(dict.fromkeys(exprs))
     h, m = common.harness(), common.model()
     rep.evaluations = len(exprs)
